@@ -213,11 +213,12 @@ func c03History(in, out string) error {
 		var events []Event
 		first := map[string]string{}
 		var bad *Result
-		// an operation named "x@2" is the SECOND call of x on one handle: it must give what x gives, so it is
-		// observed under x's name
+		// an operation named "x@..." is x after, or alongside, other work on the same handle (a second call, another
+		// page first, sibling extractors derived from the same base): it must give what x gives, so it is observed
+		// under x's name
 		record := func(d *hdoc, op string, g int, phase, h string) {
-			if strings.HasSuffix(op, "@2") {
-				op, phase = strings.TrimSuffix(op, "@2"), phase+", second call on one handle"
+			if at := strings.Index(op, "@"); at >= 0 {
+				op, phase = op[:at], phase+", after or alongside other work on the same handle"
 			}
 			events = append(events, Event{"event": "Begin", "doc": d.name, "op": op, "g": g})
 			events = append(events, Event{"event": "Observe", "doc": d.name, "op": op, "g": g, "hash": h, "phase": phase})
@@ -233,8 +234,8 @@ func c03History(in, out string) error {
 		}
 		observe := func(d *hdoc, op string, g int, phase string) {
 			run := d.run[op]
-			if strings.HasSuffix(op, "@2") {
-				op, phase = strings.TrimSuffix(op, "@2"), phase+", second call on one handle"
+			if at := strings.Index(op, "@"); at >= 0 {
+				op, phase = op[:at], phase+", after or alongside other work on the same handle"
 			}
 			mu.Lock()
 			events = append(events, Event{"event": "Begin", "doc": d.name, "op": op, "g": g})
